@@ -71,11 +71,12 @@ const (
 	L2Full
 	L2Ctx
 	L2Crash      // this and every later statement on every connection fails; onCrash is called first
+	L2Down       // from this statement on every statement fails with an I/O error (the database is gone) until Heal
 	L2ClientGone // the client of the request goes away: onClientGone (cancels the request context) is called, the statement fails with context.Canceled
 )
 
 func (f L2Fault) String() string {
-	return [...]string{"none", "io", "badconn", "busy", "full", "ctx", "crash", "client-gone"}[f]
+	return [...]string{"none", "io", "badconn", "busy", "full", "ctx", "crash", "down", "client-gone"}[f]
 }
 
 var (
@@ -96,6 +97,7 @@ type l2Hub struct {
 	onlyKinds    map[StmtKind]bool
 	fired        int
 	crashed      bool
+	down         bool
 	onCrash      func()
 	onClientGone func()
 	hook         func(ctx context.Context, rec *StmtRec) error // called (without the lock) before a statement executes: tier T parking; a non-nil error fails the statement
@@ -131,6 +133,7 @@ func (h *l2Hub) Disarm() (log []StmtRec, fired int) {
 	defer h.mu.Unlock()
 	h.armed = false
 	h.recording = false
+	h.down = false
 	log, fired = h.log, h.fired
 	h.log = nil
 	h.faultAt = 0
@@ -139,6 +142,7 @@ func (h *l2Hub) Disarm() (log []StmtRec, fired int) {
 
 func (h *l2Hub) Heal() {
 	h.mu.Lock()
+	h.down = false
 	h.crashed = false
 	h.mu.Unlock()
 }
@@ -190,6 +194,9 @@ func (h *l2Hub) before(ctx context.Context, conn *l2Conn, kind StmtKind, text st
 	if h.crashed {
 		err = driver.ErrBadConn
 		rec.Fault = "crashed"
+	} else if h.down {
+		err = errL2IO
+		rec.Fault = "down"
 	} else if h.armed {
 		h.count++
 		if h.faultAt > 0 && h.count == h.faultAt {
@@ -206,6 +213,9 @@ func (h *l2Hub) before(ctx context.Context, conn *l2Conn, kind StmtKind, text st
 				err = errL2Full
 			case L2Ctx:
 				err = context.Canceled
+			case L2Down:
+				h.down = true
+				err = errL2IO
 			case L2Crash:
 				h.crashed = true
 				if h.onCrash != nil {
